@@ -2,6 +2,11 @@ import Rv.Model.Hex
 import Rv.Model.Lock
 open Rv Rv.Lock
 
+def unhx (s : String) : String :=
+  match Hex.decode s with
+  | some bs => String.ofList (bs.map fun b => Char.ofNat b.toNat)
+  | none => "?"
+
 structure DS where
   sys : Sys := { m := 1 }
   nextVal : Nat := 100
@@ -9,6 +14,7 @@ structure DS where
   waiting : Nat := 0
   failAcq : Option Nat := none   -- the next acquire script on this key fails with a server error
   sib : Sib.St := { noloop := true }
+  name : String := "L"
 
 def runningIdx (s : Sys) (v : Nat) : List Nat := (List.range s.n).filter fun i => (s.hs v).mons i == .running
 
@@ -70,7 +76,18 @@ def sibOut (d : DS) (es : List Sib.Ev) : DS × String :=
 
 def step (d : DS) (ws : List String) : DS × String :=
   match ws with
-  | "reset" :: m :: rest => ({ sys := { m := m.toNat?.getD 1 }, sib := { noloop := rest != ["noloop=0"] } }, "ok")
+  | "reset" :: m :: rest =>
+    let nm := match rest.find? (·.startsWith "name=") with
+      | some x => unhx (String.ofList (x.toList.drop 5))
+      | none => "L"
+    ({ sys := { m := m.toNat?.getD 1 }, sib := { noloop := !rest.contains "noloop=0" }, name := nm }, "ok")
+  | ["inval", k] =>
+    -- the push reaches the waiters' Locker: its gate (registered under the lock name, 2m-1 channels) is
+    -- signalled or not; a signalled parked waiter tries once more (and is refused: the state stays)
+    match KeyName.signal "rueidislock".toList d.name.toList d.sys.n (unhx k).toList with
+    | .panic => (d, "panic")
+    | .gate _ => (d, s!"retries={if d.waiting > 0 then 1 else 0}")
+    | .none => (d, "retries=0")
   | [op, _, v, i] =>
     let v := v.toNat?.getD 0
     let i := i.toNat?.getD 0
